@@ -14,7 +14,9 @@ BOOLVARS = ["convert-meta", "input-meta", "output-meta", "history-autosuggest", 
             "enable-bracketed-paste", "menu-complete-display-prefix", "show-all-if-ambiguous", "show-all-if-unmodified",
             "skip-completed-text", "mark-modified-lines", "show-mode-in-prompt", "prefer-visible-bell", "autocomplete",
             "usage-hint-always", "isearch-terminators-x", "horizontal-scroll-mode"]
-TEXTS = [b"hello world", b"ls -la /tmp", b"(a [b] {c})", b"'q r' \"s t\"", b"x", b"", b"a.b-c_d e", b"git commit -m 'x y'"]
+TEXTS = [b"hello world", b"ls -la /tmp", b"(a [b] {c})", b"'q r' \"s t\"", b"x", b"", b"a.b-c_d e", b"git commit -m 'x y'",
+         b"say \"hi", b"f(x, y", b"a] b} c)", b"it's", b"{[(", b"a 'b c"]
+PAIRS = b"\"'`()[]{}<>bBw "
 
 
 def conv_bytes(seq):
@@ -60,6 +62,8 @@ def gen(rnd, keys, k):
                             "filter_pref": rnd.random() < 0.7}
     if rnd.random() < 0.2:
         scn["multiline"] = True
+    if vi and rnd.random() < 0.25:
+        return gen_vi_objects(rnd, rc, scn)
     maps_main = ["vi-insert", "vi-command"] if vi else ["emacs"]
     maps_local = ["vi-opp", "vi-visual", "menu-select", "isearch"]
     chunks = []
@@ -77,6 +81,13 @@ def gen(rnd, keys, k):
             b, a = rnd.choice(keys[rnd.choice(maps_local)])
             if b:
                 chunks.append(b)
+        elif r < 0.72 and vi:
+            # operator / surround / text-object commands that read further keys themselves
+            seq = rnd.choice([b"c", b"d", b"y", b"v", b""]) + rnd.choice([b"s", b"i", b"a", b"f", b"t", b"F", b"T", b"r", b"\""]) + \
+                bytes([rnd.choice(PAIRS)]) + (bytes([rnd.choice(PAIRS)]) if rnd.random() < 0.6 else b"")
+            if not any(c == b"\x1b" for c in chunks):
+                chunks.append(b"\x1b")
+            chunks.append(rnd.choice([b"0", b"$", b"b", b"h", b""]) + seq)
         elif r < 0.8:
             chunks.append(bytes([rnd.choice(b"abcxyz .-/'\"([{0123456789")]))
         elif r < 0.9:
@@ -96,8 +107,39 @@ def gen(rnd, keys, k):
     eof = rnd.random() < 0.3
     if eof:
         cut = rnd.randrange(0, len(merged) + 1)
-        merged = merged[:cut] + [("eof",)]
+        merged = merged[:cut]
+        if rnd.random() < 0.5:
+            # the input ends in the middle of a key sequence: after a proper prefix of a binding
+            km = rnd.choice(maps_main)
+            b, a = rnd.choice(keys[km])
+            if len(b) > 1:
+                if km == "vi-command" and not any(c == b"\x1b" for c in merged):
+                    merged.append(b"\x1b")
+                merged.append(b[:rnd.randrange(1, len(b))])
+        merged.append(("eof",))
     return {"scenario": scn, "chunks": merged, "inputrc": "\n".join(rc) + "\n", "step_timeout": 3.0}
+
+
+def gen_vi_objects(rnd, rc, scn):
+    """vi command mode: operators with surround / inside / around objects and the character-reading motions,
+    on texts with balanced and unbalanced pairs, the argument characters drawn from the text"""
+    text = rnd.choice(TEXTS[8:] + TEXTS[2:4] + [b"(a (b) c)", b"x \"y\" z", b"<a> <b"])
+    chunks = [text, b"\x1b"]
+    punct = bytes(c for c in text if not chr(c).isalnum()) or b"\""
+    for _ in range(rnd.randrange(2, 5)):
+        mv = rnd.choice([b"0", b"$", b"b", b"h", b"w", b"", b"l", b"^"])
+        op = rnd.choice([b"c", b"d", b"y", b"v"])
+        kind = rnd.choice([b"s", b"i", b"a"]) if rnd.random() < 0.75 else rnd.choice([b"f", b"t", b"F", b"T"])
+        ch = bytes([rnd.choice(punct if rnd.random() < 0.7 else PAIRS)])
+        ch2 = bytes([rnd.choice(PAIRS)]) if rnd.random() < 0.7 else b""
+        seq = mv + op + kind + ch + ch2
+        chunks.append(seq if rnd.random() < 0.5 else mv + op)
+        if chunks[-1] != seq:
+            chunks.append(kind + ch + ch2)
+        chunks.append(b"\x1b")
+    if rnd.random() < 0.3:
+        chunks = chunks[:rnd.randrange(2, len(chunks))] + [("eof",)]
+    return {"scenario": scn, "chunks": chunks, "inputrc": "\n".join(rc) + "\n", "step_timeout": 3.0}
 
 
 def signature(r):
@@ -136,8 +178,13 @@ def check(rep, tier, seed):
             continue
         matched = None
         for site, f in known.items():
-            if (sig in ("spin", "hang") and f["signature"].get("inputrc") and f["signature"]["inputrc"] in j["inputrc"]) or site and site in sig or (sig in ("hang", "spin") and f["signature"].get("kind") == sig and
-                                        any(f["signature"].get("input", "\0").encode("latin-1") in c for c in j["chunks"] if isinstance(c, bytes))):
+            fs = f["signature"]
+            if fs.get("inputrc"):
+                hit = sig in ("spin", "hang") and fs["inputrc"] in j["inputrc"] and \
+                    any(fs.get("input", "").encode("latin-1") in c for c in j["chunks"] if isinstance(c, bytes))
+            else:
+                hit = bool(site) and site in sig
+            if hit:
                 matched = f
         if matched:
             hits[matched["id"]] = hits.get(matched["id"], 0) + 1
@@ -146,6 +193,7 @@ def check(rep, tier, seed):
                     "chunks": [c.decode("latin-1") if isinstance(c, bytes) else list(c) for c in j["chunks"]],
                     "events": [e for e in r["events"] if e["ev"] in ("panic", "return", "readerr")][:4],
                     "goroutines": r.get("goroutine_dump", "")[-1500:]})
+    bad += corr["bad"]
     for fid, cnt in hits.items():
         rep.known_finding(fid, "%s (%d sessions)" % (known_what(rep, fid), cnt))
     nkeys = sum(len(v) for v in keys.values())
@@ -209,13 +257,16 @@ def correspondence(rnd, tier):
                 chunks.append(cur)
                 cur = []
         eof = rnd.random() < 0.5
+        if eof and rnd.random() < 0.4 and 13 not in data:
+            k = rnd.choice([k for k, _ in pool if len(k) > 1])      # the input ends after a proper prefix of a binding
+            chunks.append(k[:rnd.randrange(1, len(k))])
         jobs.append({"scenario": {"calls": 1}, "chunks": [bytes(c) for c in chunks] + ([("eof",)] if eof else []), "inputrc": ""})
         ins = ["0 " + enc_list(c) for c in chunks] + (["1 0"] if eof else [])
         mlines.append("full 0 1 %s 0 %d %s" % (enc_str("emacs"), len(ins), " ".join(ins)))
         metas.append({"chunks": chunks, "eof": eof})
     res = P.run_many(jobs)
     gm = vlib.model(mlines)
-    mism, outcomes, neof = [], {}, 0
+    mism, outcomes, neof, bad = [], {}, 0, []
     for m, r, ml in zip(metas, res, gm):
         d = Dec(ml)
         code = d.int()
@@ -249,7 +300,10 @@ def correspondence(rnd, tier):
                 want = ("nofuel",)
         if want != got:
             mism.append({"chunks": m["chunks"], "eof": m["eof"], "impl": repr(got)[:200], "model": ml[:200]})
-    return {"cases": n, "mism": mism, "eof": neof, "outcomes": outcomes}
+        if got[0] in ("panic", "spin", "hang", "died"):
+            bad.append({"signature": got[0], "inputrc": "", "scenario": {"calls": 1}, "chunks": [bytes(c).decode("latin-1") for c in m["chunks"]] + (["<end of input>"] if m["eof"] else []),
+                        "events": [e for e in r["events"] if e["ev"] in ("panic", "return", "readerr")][:4], "model_says": ml[:120]})
+    return {"cases": n, "mism": mism, "eof": neof, "outcomes": outcomes, "bad": bad}
 
 
 def known_what(rep, fid):
